@@ -292,7 +292,8 @@ def random_shard(st, shard, nshards, payload):
             F = draw(hs.lists(hs.lists(hs.integers(0, n - 1), max_size=n, unique=True), min_size=1, max_size=4))
         base = {'K': K, 'F': F, 'naming': draw(hs.sampled_from(['int', 'str', 'tuple', 'mixed'])),
                 'how': draw(hs.integers(0, 5)),
-                'fshape': draw(hs.sampled_from(['list-set', 'list-set', 'list-frozenset', 'tuple-set', 'tuple-frozenset'])),
+                'fshape': draw(hs.sampled_from(['list-set', 'list-set', 'list-frozenset', 'tuple-set', 'tuple-frozenset', 'list-set-out',
+                                                'set-frozenset', 'dict-values', 'list-set-dup'])),
                 'again': draw(hs.integers(0, 3)) == 0,
                 'extra_labels': draw(hs.lists(hs.tuples(hs.integers(0, 5), hs.integers(0, 10)).map(list), min_size=1, max_size=4))
                 if draw(hs.integers(0, 2)) == 0 else None}
